@@ -877,6 +877,7 @@ func Main(args []string) error {
 	seed := fs.Int64("seed", 1, "seed")
 	out := fs.String("out", "trace.ndjson", "output trace")
 	only := fs.String("only", "", "run only the sequence with this id")
+	boot := fs.Int("boot", 0, "boot mode (LightClientBoot.tla): number of bootstrap sequences of 8 client pairs each")
 	if err := fs.Parse(args); err != nil {
 		return err
 	}
@@ -905,6 +906,10 @@ func Main(args []string) error {
 	for r := 0; r < *rnd; r++ {
 		id := fmt.Sprintf("r%d", r)
 		jobs = append(jobs, job{id, func() []map[string]any { return w.runRandom(*seed, id, *rndLen) }})
+	}
+	for r := 0; r < *boot; r++ {
+		id := fmt.Sprintf("b%d", r)
+		jobs = append(jobs, job{id, func() []map[string]any { return w.runBoot(*seed, id, 8) }})
 	}
 	if *only != "" {
 		var keep []job
